@@ -1,6 +1,8 @@
 package urlfilter
 
 import (
+	"strings"
+
 	"github.com/AdguardTeam/urlfilter/filterlist"
 	"github.com/AdguardTeam/urlfilter/rules"
 )
@@ -94,4 +96,84 @@ func verifC13Rewrites(k int, nkinds int) {
 	verifReach("c13.rewrites")
 	verifAssert(verifSameSeq(all1, all2), "c13: DNSRewritesAll is the same before and after DNSRewrites")
 	verifAssert(verifSameSeq(eff1, eff2), "c13: DNSRewrites called twice gives the same answer")
+}
+
+// ---- Engine.MatchRequest after another request (C13): the verdict of the second
+// request is the one of a fresh engine.  MatchAll is replaced: request rules by
+// identity of the request, referrer rules by the last byte of the referrer URL.
+
+var verifMainReq2 *rules.Request
+var verifMainRules2, verifSrcRules2 []*rules.NetworkRule
+
+func verifMatchAllHist(n *NetworkEngine, r *rules.Request) []*rules.NetworkRule {
+	if r == verifMainReq {
+		return verifMainRules
+	}
+	if r == verifMainReq2 {
+		return verifMainRules2
+	}
+	if len(r.URL) > 0 && r.URL[len(r.URL)-1] == 'a' {
+		return verifSrcRules
+	}
+	return verifSrcRules2
+}
+
+func verifC13Engine(k, s int) {
+	mk := func(p string, n int) []*rules.NetworkRule {
+		out := make([]*rules.NetworkRule, n)
+		for i := range out {
+			out[i] = rules.VerifPlainRule(vn(p, i, ""))
+		}
+		return out
+	}
+	// the first request has no rules of its own and a referrer (path "a") with one concrete
+	// document-level exception; the second has symbolic rules and a referrer with path "b"
+	doc, err := rules.NewNetworkRule("@@||zq.com^$urlblock", 1)
+	if err != nil {
+		panic(err)
+	}
+	verifMainRules, verifMainRules2 = nil, mk("t", k)
+	verifSrcRules, verifSrcRules2 = []*rules.NetworkRule{doc}, mk("u", s)
+	src2 := []string{"http://zq.com/b", "http://qz.com/b", "http://q.zq.com/b"}[verifChoice("src2", 3)]
+	req1 := &rules.Request{URL: "http://a.com/x", URLLowerCase: "http://a.com/x", Hostname: "a.com", SourceURL: "http://zq.com/a"}
+	req2 := &rules.Request{URL: "http://a.com/y", URLLowerCase: "http://a.com/y", Hostname: "a.com", SourceURL: src2}
+	for _, r := range verifMainRules2 {
+		verifAssume(rules.VerifAlwaysApplies(r))
+	}
+	for _, r := range verifSrcRules2 {
+		verifAssume(rules.VerifAlwaysApplies(r))
+	}
+	if !verifSymbolic() {
+		// native replay: a real engine over rules with the same fields whose patterns select the same requests
+		texts := []string{"@@||zq.com/a$urlblock"}
+		for _, r := range verifMainRules2 {
+			texts = append(texts, rules.VerifTextWithPattern(r, "||a.com/y"))
+		}
+		for _, r := range verifSrcRules2 {
+			texts = append(texts, rules.VerifTextWithPattern(r, "|"+src2+"|"))
+		}
+		mkEngine := func() *Engine {
+			l := &filterlist.StringRuleList{ID: 1, RulesText: strings.Join(texts, "\n")}
+			st, err := filterlist.NewRuleStorage([]filterlist.RuleList{l})
+			if err != nil {
+				panic(err)
+			}
+			return NewEngine(st)
+		}
+		r1 := rules.NewRequest("http://a.com/x", "http://zq.com/a", rules.TypeOther)
+		r2 := rules.NewRequest("http://a.com/y", src2, rules.TypeOther)
+		en := mkEngine()
+		_ = en.MatchRequest(r1)
+		got := en.MatchRequest(r2)
+		want := mkEngine().MatchRequest(r2)
+		verifNote("rules: " + strings.Join(texts, " ; "))
+		verifAssert(rules.VerifVerdict(got.GetBasicResult()) == rules.VerifVerdict(want.GetBasicResult()), "c13: Engine.MatchRequest answers the second request as a fresh engine would")
+		return
+	}
+	verifMainReq, verifMainReq2 = req1, req2
+	e := &Engine{networkEngine: &NetworkEngine{}}
+	_ = e.MatchRequest(req1)
+	res := e.MatchRequest(req2)
+	verifReach("c13.engine")
+	verifAssert(rules.VerifVerdict(res.GetBasicResult()) == rules.VerifRefClass(verifMainRules2, verifSrcRules2), "c13: Engine.MatchRequest answers the second request as a fresh engine would")
 }
